@@ -7,6 +7,16 @@ from ..framework import Check
 from .. import blocklib as bl, lib
 
 LINE_POOL = ["head", "END", "x END y", "", "data 1", "--", "B", "STOP"]
+CR_POOL = ["a\r", "x\ry END", "\r"]
+
+
+def nl_lines(s):
+    """split on \\n only, keeping ends (what readline() on a StringIO does)"""
+    out = s.split("\n")
+    res = [l + "\n" for l in out[:-1]]
+    if out[-1]:
+        res.append(out[-1])
+    return res
 
 
 def gen_secdefs(rng):
@@ -44,7 +54,7 @@ class CHECK(Check):
                         yield {"secs": sds, "content": "\n".join(combo) + (fin if n else "")}
         for _ in range(1500 if tier == "quick" else 40000):
             sds = gen_secdefs(rng)
-            lines = [rng.choice(LINE_POOL) for _ in range(rng.randint(0, 12))]
+            lines = [rng.choice(LINE_POOL + (CR_POOL if rng.random() < 0.3 else [])) for _ in range(rng.randint(0, 12))]
             yield {"secs": sds, "content": "\n".join(lines) + (rng.choice(["\n", "\n", ""]) if lines else "")}
 
     def impl(self, case):
@@ -88,7 +98,7 @@ class CHECK(Check):
                 return "element %d does not start where the previous one stopped" % i
             if idx >= 0:
                 kind, arg = case["secs"][idx]
-                lines = content[pos:].splitlines(keepends=True)
+                lines = nl_lines(content[pos:])
                 if kind == "lines":
                     exp = "".join(lines[:arg])
                 else:
@@ -124,7 +134,7 @@ class CHECK(Check):
         return re.sub(r"[0-9]+", "#", why)
 
     def shrink(self, case):
-        lines = case["content"].splitlines(keepends=True)
+        lines = nl_lines(case["content"])
         for i in range(len(lines)):
             c = dict(case)
             c["content"] = "".join(lines[:i] + lines[i + 1:])
